@@ -25,6 +25,10 @@ checks = {
    text="TLC checks on GoNum.tla that the comparison as coded returns only -1/0/1, equals the order the statement prescribes (mathematical order across all twelve Go numeric kinds, byte-wise on strings, decimal text against string), and is reflexive, antisymmetric, transitive and congruent within each kind class, for every pair and triple of the boundary-value domain; every pair is exported and compare.Compare plus the six WHERE comparison operators are executed on the real Go values (exhaustive over the domain).",
    tech="TLA+ specification (GoNum: rank-based value model, CodeCmp as coded) model-checked with TLC over all pairs/triples; every exported pair replayed into compare.Compare and WHERE on real Go values",
    note="Exhaustive over the stated finite domain only (31 boundary points x 12 kinds + 11 strings). Trusts TLC, the harness (which re-checks each %v text of the specification against fmt) and that float64 represents the points exactly."),
+ "C18": dict(cat="model_checking", ref="DESIGN.md 4 C18",
+   text="TLC checks on Builtins.tla the algebraic laws of the statement (DECODE(ENCODE(v,b),b)=v for every scalar and base, HASH a function of its arguments with the algorithm's hex length, FIRST/LAST/ELEMENTAT agreement and out-of-range errors, UNWIND one level, ARRAY, IF, case-map idempotence, string<->double round trip, wrong arity -> error) and enumerates every call of the bounded argument domain; every case is executed against the real library in three spellings (FROM dual, per-row FROM a table, literal arguments) and values / errors / opaque-text shape and purity are compared.",
+   tech="TLA+ specification (Builtins.tla, ENCODE/HASH uninterpreted) model-checked with TLC; every exported call replayed through genql.New/Exec",
+   note="Exhaustive over the stated finite argument domain. Bit-level fidelity of base64/base32/hex/SHA is outside the specification (uninterpreted); only round trip, purity and length are decided. One known finding (CONCAT renders NULL as <nil>)."),
 }
 not_applicable = []
 m = {
